@@ -59,6 +59,8 @@ fn main() {
         std::process::exit(2);
     }
     let prop = args[1].clone();
+    // privileged instructions executed outside an observed call are counted and shown on the next protocol line
+    trap::allow_stray(true);
     let mut tier = Tier::Quick;
     let mut seed: u64 = 1;
     let mut stats: Option<String> = None;
